@@ -482,9 +482,96 @@ def check_backlog(case: dict[str, Any]) -> list[tuple[str, str]]:
     return []
 
 
+def check_helpers(case: dict[str, Any]) -> list[tuple[str, str]]:
+    """The multi-request helpers of the ECU client (transmit_data, set_session with the fallback to the session transitions stored
+    in the database) are made of ordinary requests: each of them has its row, and the caller's ANALYZE tag marks the caller's request."""
+    from datetime import UTC, datetime
+
+    from gallia.command.base import BaseCommandConfig
+    from gallia.db.handler import DBHandler
+    from gallia.services.uds.core.client import UDSRequestConfig
+    from gallia.services.uds.ecu import ECU
+
+    level, steps, data, block = case["level"], case["steps"], bytes.fromhex(case["data"]), case["block"]
+    d = Path(tempfile.mkdtemp(prefix="vf-c11h."))
+    wire: list[tuple[str, str | None]] = []
+    try:
+        async def go() -> None:
+            db = DBHandler(d / "db.sqlite")
+            await db.connect()
+            await db.insert_run_meta("vf.c11", BaseCommandConfig(), datetime.now(UTC).astimezone(), None)
+            await db.insert_scan_run("tcp-lines://192.0.2.9:1")
+            await db.insert_session_transition(level, steps)
+            refused = {"n": 1 if case["refuse_first"] else 0}
+
+            class Auto(HistTransport):
+                async def write(self, data_: bytes, timeout: float | None = None, tags: list[str] | None = None) -> int:
+                    b = bytes(data_)
+                    if b[0] == 0x36:
+                        rep: bytes | None = bytes([0x76, b[1]])
+                    elif b[0] == 0x37:
+                        rep = b"\x77"
+                    elif b[0] == 0x3E:
+                        rep = b"\x7e\x00"
+                    elif b[0] == 0x10 and b[1] == level and refused["n"]:
+                        refused["n"] -= 1
+                        rep = b"\x7f\x10\x7e"
+                    elif b[0] == 0x10:
+                        rep = bytes([0x50, b[1], 0x00, 0x32, 0x01, 0xF4])
+                    else:
+                        rep = bytes([0x7F, b[0], 0x11])
+                    wire.append((b.hex(), rep.hex()))
+                    self.queue = [rep]
+                    return len(b)
+
+            ecu = ECU(Auto(), timeout=0.2, max_retry=0)  # type: ignore[arg-type]
+            ecu.db_handler = db
+            try:
+                await ecu.ping()
+                if data:
+                    await ecu.transmit_data(data, block, config=UDSRequestConfig(tags=["ANALYZE"]) if case["tag_transfer"] else None)
+                await ecu.set_session(level, config=UDSRequestConfig(tags=["ANALYZE"]))
+                await ecu.ping()
+            finally:
+                await db.disconnect()
+
+        try:
+            asyncio.run(go())
+        except Exception as e:  # noqa: BLE001
+            return [(f"C11/helpers/raises/{type(e).__name__}", f"{case}: {type(e).__name__}: {e}")]
+        con = sqlite3.connect(d / "db.sqlite")
+        rows = con.execute("SELECT request_pdu, response_pdu, log_mode FROM scan_result ORDER BY id").fetchall()
+        con.close()
+    finally:
+        shutil.rmtree(d, ignore_errors=True)
+    if [(r[0], r[1]) for r in rows] != wire:
+        missing = [w[0] for w in wire if w[0] not in {r[0] for r in rows}]
+        which = "transfer" if any(m.startswith(("36", "37")) for m in missing) else "session-change" if any(m.startswith("10") for m in missing) else "other"
+        return [(f"C11/helpers/rows-differ/{which}", f"{case}: wire {[w[0][:10] for w in wire]}, rows {[r[0][:10] for r in rows]}")]
+    out = []
+    for rq, _rp, mode in rows:
+        if rq == bytes([0x10, level]).hex() and mode != "emphasized":
+            out.append(("C11/helpers/log-mode/session-change-of-the-caller", f"{case}: request {rq} of set_session(.., tags=ANALYZE) stored as {mode}"))
+            break
+        if rq[:2] in ("36", "37") and mode != ("emphasized" if case["tag_transfer"] else "implicit"):
+            out.append(("C11/helpers/log-mode/transfer", f"{case}: request {rq[:10]} stored as {mode}"))
+            break
+    return out
+
+
+@st.composite
+def helpers_case_s(draw) -> dict[str, Any]:
+    level = draw(st.sampled_from([2, 3, 0x40, 0x60]))
+    return {"kind": "helpers", "level": level, "steps": [x for x in draw(st.sampled_from([[1], [1, 3], [1, 2, 3]])) if x != level],
+            "refuse_first": draw(st.sampled_from([True, True, False])), "data": draw(st.binary(min_size=0, max_size=40)).hex(),
+            "block": draw(st.sampled_from([3, 4, 6, 10, 0xFFF])), "tag_transfer": draw(st.booleans())}
+
+
 def check(case: dict[str, Any]) -> list[tuple[str, str]]:
     if case.get("kind") == "scanner":
         return check_scanner(case)
+    if case.get("kind") == "helpers":
+        return check_helpers(case)
     if case.get("kind") == "backlog":
         return check_backlog(case)
     d = Path(tempfile.mkdtemp(prefix="vf-c11."))
@@ -550,7 +637,7 @@ def nontrivial(case: dict[str, Any]) -> bool:
 
 def shards(tier: str) -> list[dict[str, Any]]:
     return [{"n": 90 if tier == "quick" else 1500} for _ in range(14)] + [{"n": 40 if tier == "quick" else 800, "scanner": True} for _ in range(2)] + \
-        [{"backlog": [2500] if tier == "quick" else [1500, 2500, 6000]}]
+        [{"backlog": [2500] if tier == "quick" else [1500, 2500, 6000]}] + [{"helpers": 20 if tier == "quick" else 500} for _ in range(2)]
 
 
 def run_shard(spec: dict[str, Any], seed: int) -> Collector:
@@ -563,6 +650,14 @@ def run_shard(spec: dict[str, Any], seed: int) -> Collector:
 
     if spec.get("scanner"):
         run_given(scanner_case_s(), body_scanner, spec["n"], seed)
+        return col
+    if spec.get("helpers"):
+        def body_helpers(case: dict[str, Any]) -> None:
+            col.case(str(case), True, cls="helpers", sample=case)
+            for b, m in check(case):
+                col.violation(b, case, m)
+
+        run_given(helpers_case_s(), body_helpers, spec["helpers"], seed)
         return col
     if spec.get("backlog"):
         for n in spec["backlog"]:
@@ -586,7 +681,7 @@ def run_shard(spec: dict[str, Any], seed: int) -> Collector:
 
 def replay(witness: Any) -> list[tuple[str, str]]:
     w = unjson(witness)
-    if w.get("kind") in ("scanner", "backlog"):
+    if w.get("kind") in ("scanner", "backlog", "helpers"):
         return check(w)
     for e in w["exchanges"]:
         if "special" in e["req"]:
